@@ -1,6 +1,6 @@
 (* C12  Configuration selection honours -D/-U and covers guarded code.
    Statements only; every proof is `exact <lemma>`. *)
-From CV Require Import Base.Bytes PP.Cond PP.CondProofs Cfg.Defs Cfg.Proofs.
+From CV Require Import Base.Bytes PP.Cond PP.CondProofs Cfg.Defs Cfg.Proofs Cfg.Fixed Cfg.FixedProofs.
 
 (* The coverage promise is FALSE for the property's family (nested #ifdef/#else on
    distinct macros, 3 macros, default --max-configs): line 3 of
@@ -47,6 +47,33 @@ Theorem C12_configs_cover_e2e_partial f :
 Proof. exact (configs_cover_e2e_partial f). Qed.
 Print Assumptions C12_configs_cover_e2e_partial.
 
+(* The two repairs are sufficient for the WHOLE family of the property: with `#else` of an #ifdef group keeping
+   configs_if in step (A) and `#if !defined(m)` stacked like `#ifndef m` (B), every line of every tree
+   (#ifdef / #ifndef / #if defined() / #if !defined(), #else anywhere, any depth and sibling order, distinct macros)
+   is kept under one of the configurations.  `get_configs_f` is Cfg/Fixed.v; with both switches off it is the model
+   of the code (C12_fixed_off_is_code). *)
+Theorem C12_fixed_configs_cover f :
+  in_family f -> NoDup (macros f) ->
+  forall id, In id (ids guard f) ->
+  exists c l, In c (get_configs_f true true [] [] (flatten guard f)) /\
+              keep guard (ev_guard (dui_defs [] [] c)) f = Some l /\ In id l.
+Proof. exact (fixed_configs_cover f). Qed.
+Print Assumptions C12_fixed_configs_cover.
+
+Theorem C12_fixed_off_is_code uD uU ds : get_configs_f false false uD uU ds = get_configs uD uU ds.
+Proof. exact (get_configs_f_off uD uU ds). Qed.
+Print Assumptions C12_fixed_off_is_code.
+
+(* hence the attribution made by the check is exhaustive: a line of a family tree that the real configuration
+   set leaves uncovered is covered by the repaired one (and the two sets differ) *)
+Theorem C12_uncovered_explained f id :
+  in_family f -> NoDup (macros f) -> In id (ids guard f) ->
+  ~ covered_by (get_configs [] [] (flatten guard f)) f id ->
+  covered_by (get_configs_f true true [] [] (flatten guard f)) f id /\
+  get_configs_f true true [] [] (flatten guard f) <> get_configs [] [] (flatten guard f).
+Proof. exact (uncovered_explained f id). Qed.
+Print Assumptions C12_uncovered_explained.
+
 Theorem C12_select_all_when_fits mx cs :
   match mx with Some k => (length cs <= N.to_nat k)%nat | None => True end -> select mx cs = cs.
 Proof. exact (select_all_when_fits mx cs). Qed.
@@ -84,5 +111,7 @@ Example C12_ok_example : okf O ok_example /\ NoDup (macros ok_example).
 Proof. exact ok_example_ok. Qed.
 Example C12_ok_example_fits : (length (get_configs [] [] (flatten guard ok_example)) <= 12)%nat.
 Proof. vm_compute. repeat constructor. Qed.
+Example C12_family_example : in_family refute1 /\ NoDup (macros refute1) /\ In 3%N (ids guard refute1).
+Proof. exact (conj (proj1 configs_cover_refuted) (conj (proj1 (proj2 configs_cover_refuted)) (proj1 (proj2 (proj2 configs_cover_refuted))))). Qed.
 Example C12_userDU_example : In [88]%N [[88]]%N /\ ~ In [88]%N [[89]]%N.
 Proof. split; [now left|]. intros [H|[]]; discriminate. Qed.
